@@ -66,6 +66,11 @@ def source_variants():
 
 # ------------------------------------------------------------------ helpers
 
+def _fail(ctx, key, what, case):
+    ctx.count('oracle:' + key)
+    ctx.oracle_fail(key, what, case)
+
+
 def H(a):
     a = np.asarray(a, float).ravel()
     return ','.join(C.f2h(x) for x in a) if a.size else '-'
@@ -254,7 +259,7 @@ def check_as(ctx, real, cases):
                     if np.abs(out['Asc'] - Ac).max() > 1e-9 * (1 + np.abs(Ac).max()) * max(1.0, np.linalg.cond(np.reshape(c['gy'], (m, m)))):
                         ctx.disagree('calc_As-Asc', c, out['Asc'].ravel().tolist(), Ac.ravel().tolist())
         for key, what in oracle_as(c, out):
-            ctx.oracle_fail(key, what, c)
+            _fail(ctx, key, what, c)
 
 
 # ------------------------------------------------------------------ _store_stats
@@ -303,7 +308,7 @@ def check_st(ctx, real, cases, vneg):
         if '%d %d %d' % got != mo:
             ctx.disagree('_store_stats', c, '%d %d %d' % got, mo)
         for key, what in oracle_st(c, got):
-            ctx.oracle_fail(key, what, c)
+            _fail(ctx, key, what, c)
 
 
 # ------------------------------------------------------------------ calc_pfactor + report
@@ -386,7 +391,7 @@ def check_pf(ctx, real, cases, vpf):
             ctx.disagree('most-associated', c, r['assoc'], am)
         p += 1 + n
         for key, what in oracle_pf(c, r):
-            ctx.oracle_fail(key, what, c)
+            _fail(ctx, key, what, c)
 
 
 # ------------------------------------------------------------------ stock cases: EIG.run and EIG.sweep on the real system
@@ -405,7 +410,7 @@ def stock(ctx, case, vneg, vpf, sweep=True):
     try:
         ok = e.run()
     except Exception as ex:   # noqa
-        ctx.oracle_fail('eig-run-raises', 'EIG.run raised %s on %s' % (type(ex).__name__, case), c)
+        _fail(ctx, 'eig-run-raises', 'EIG.run raised %s on %s' % (type(ex).__name__, case), c)
         return
     ctx.case('stock:' + case, {'case': case, 'n': int(ss.dae.n), 'm': int(ss.dae.m), 'ok': bool(ok)})
     d = ss.dae
@@ -415,7 +420,7 @@ def stock(ctx, case, vneg, vpf, sweep=True):
     out = {'As': np.array(e.As, dtype=float), 'names': []}
     ctx.count('stock:zeroT=%d' % int((d.Tf == 0).sum()))
     for key, what in oracle_as(cc, out):
-        ctx.oracle_fail(key, '%s: %s' % (case, what), c)
+        _fail(ctx, key, '%s: %s' % (case, what), c)
     mu = np.array(e.mu).ravel()
     got = (int(e.n_positive), int(e.n_zeros), int(e.n_negative))
     st = {'tol': e.config.tol, 're': mu.real.tolist(), 'im': mu.imag.tolist()}
@@ -423,7 +428,7 @@ def stock(ctx, case, vneg, vpf, sweep=True):
     if '%d %d %d' % got != mo:
         ctx.disagree('_store_stats', c, '%d %d %d' % got, mo)
     for key, what in oracle_st(st, got):
-        ctx.oracle_fail(key, '%s: %s' % (case, what), c)
+        _fail(ctx, key, '%s: %s' % (case, what), c)
     pf = np.array(e.pfactors)
     k = len(mu)
     N, W = np.array(e.N), np.array(e.W)
@@ -434,7 +439,7 @@ def stock(ctx, case, vneg, vpf, sweep=True):
     assoc = [int(np.argmax(pf[i])) for i in range(k)]
     r = {'A': np.array(e.As, dtype=float), 'mu': mu, 'N': N, 'pf': pf, 'assoc': assoc}
     for key, what in oracle_pf({'n': k}, r):
-        ctx.oracle_fail(key, '%s: %s' % (case, what), c)
+        _fail(ctx, key, '%s: %s' % (case, what), c)
     if sweep:
         sweep_check(ctx, ss, case)
 
@@ -446,13 +451,14 @@ def sweep_check(ctx, ss, case):
     e = ss.EIG
     c = {'kind': 'sweep', 'case': case, 'initialised': bool(ss.TDS.initialized)}
     vals = [2.0, 4.0, 8.0]
-    a = int(ss.GENROU.omega.a[0])
     used = []
-    tf0, init0 = float(ss.dae.Tf[a]), bool(ss.TDS.initialized)
+    init0 = bool(ss.TDS.initialized)
+    # before TDS.init the states have no addresses and dae.Tf does not exist (the model ignores the value then)
+    tf0 = float(ss.dae.Tf[int(ss.GENROU.omega.a[0])]) if init0 else 0.0
     orig = e.calc_As
 
     def wrap(*aa, **kk):
-        used.append(float(ss.dae.Tf[a]))
+        used.append(float(ss.dae.Tf[int(ss.GENROU.omega.a[0])]))
         return orig(*aa, **kk)
     e.calc_As = wrap
     try:
@@ -467,7 +473,7 @@ def sweep_check(ctx, ss, case):
         ctx.disagree('sweep-Tf', c, used, mo)
     if used != vals:
         same = all(np.allclose(np.sort_complex(res[0]['mu']), np.sort_complex(res[i]['mu'])) for i in res)
-        ctx.oracle_fail('sweep-stale-time-constants',
+        _fail(ctx, 'sweep-stale-time-constants',
                         '%s: EIG.sweep over GENROU.M=%s used dae.Tf=%s at the rotor-speed state%s'
                         % (case, vals, used, ' and returned identical eigenvalues for every value' if same else ''), c)
 
@@ -525,7 +531,7 @@ def search(ctx):
         + [gen_pf(rng) for _ in range(ctx.n(100, 500))]
     for c in cases:
         for key, what in oracle_case(real, c):
-            ctx.oracle_fail(key, what, c)
+            _fail(ctx, key, what, c)
 
 
 def oracle_case(real, c):
